@@ -364,6 +364,21 @@ impl EpisodeState {
             self.violation("C17", "c17.selected-flow-missing".into(), format!("frame {}: selected flow {} does not exist in the displayed data ({} flows)", self.frames, flow.0, app.selected_tracer_data.flows().len()));
             return None;
         }
+        // settings tab and settings item exist
+        if app.settings_tab_selected >= 7 {
+            self.violation("C17", "c17.settings-tab-out-of-range".into(), format!("frame {}: settings tab {} selected", self.frames, app.settings_tab_selected));
+        } else if app.show_settings {
+            let count = app.verif_settings_items_count();
+            if let Some(i) = app.setting_table_state.selected() {
+                if i >= count.max(1) {
+                    self.violation(
+                        "C17",
+                        "c17.settings-item-out-of-range".into(),
+                        format!("frame {}: settings tab {} has {count} items but item {i} is selected", self.frames, app.settings_tab_selected),
+                    );
+                }
+            }
+        }
         let hops = app.selected_tracer_data.hops_for_flow(flow);
         if let Some(sel) = app.table_state.selected() {
             if sel >= hops.len() {
